@@ -196,6 +196,7 @@ func (e *Env) instantiateType(g ast.Expr, args []ast.Expr) types.Type {
 	return inst
 }
 
+
 func constTV(c constant.Value, t types.Type) TV {
 	switch c.Kind() {
 	case constant.Bool:
@@ -311,6 +312,12 @@ func (e *Env) eval(x ast.Expr) TV {
 		t := e.resolveType(x.Type)
 		if t == nil {
 			e.fail(x, "unknown type in type assertion")
+		}
+		if base.T != nil {
+			if _, isIface := under(base.T).(*types.Interface); !isIface && types.Identical(base.T, t) {
+				// ghostField(x, "f").(T): the operand already has the static type T (see ghostField): the assertion is the identity
+				return base
+			}
 		}
 		e.vc.declIface()
 		return TV{e.vc.unbox(base.term(), t), t}
@@ -859,6 +866,28 @@ func (e *Env) evalCall(x *ast.CallExpr) TV {
 		case "sliceOff":
 			a := e.eval(x.Args[0]).V.(*SliceV)
 			return intTV(a.Off)
+		case "ghostField":
+			// ghostField(x, "f"): the field f of x, also when f is an unexported field of another package (contract clauses
+			// may name such fields directly; compiled spec functions cannot, so they write ghostField(x, "f").(T), T the
+			// field's type). Pure syntax for x.f: nothing is abstracted.
+			if len(x.Args) != 2 {
+				e.fail(x, "ghostField needs a value and a field name")
+			}
+			bl, ok := x.Args[1].(*ast.BasicLit)
+			if !ok {
+				e.fail(x, "ghostField needs a string literal field name")
+			}
+			fname, _ := strconv.Unquote(bl.Value)
+			return e.selectField(x, e.eval(x.Args[0]), fname)
+		case "mapRef":
+			// mapRef(m): the reference of map m as an integer (identity of the map object; nil map = 0). Go has no map
+			// equality, so a compiled spec function cannot write a.m != b.m; mapRef(a.m) != mapRef(b.m) says the same.
+			// It is the identity on the reference term, nothing is abstracted.
+			a := e.eval(x.Args[0])
+			if _, ok := under(a.T).(*types.Map); !ok || len(x.Args) != 1 {
+				e.fail(x, "mapRef needs a map")
+			}
+			return intTV(a.term())
 		}
 		// spec function in this package
 		if _, isName := e.names[id.Name]; !isName {
